@@ -180,7 +180,7 @@ Proof.
   destruct (match_kw kw_from None (skipn d m)) as [[la rr]|] eqn:EF; [|reflexivity].
   exfalso. assert (match_kw kw_from None (skipn d m) <> None) as HF by congruence.
   apply from_needs_f in HF. destruct HF as [r HF].
-  apply match_char_inv in E1. destruct E1 as [[b0 [-> Hb0]]|[[_ ->]|[H _]]]; [| |lia].
+  apply match_char_inv in E1. destruct E1 as [[c0 [-> Hc0]]|[[_ ->]|[H _]]]; [| |lia].
   - destruct d as [|[|[|[|[|[|d]]]]]]; try lia; cbn [skipn] in HF;
       destruct HF as [HF|HF]; inversion HF; lia.
   - destruct d as [|[|[|[|[|[|d]]]]]]; try lia; cbn [skipn] in HF;
@@ -214,7 +214,7 @@ Proof.
   induction stops as [|k ks IH]; intros e He; cbn [clause_end_go]; [exact He|].
   apply IH. destruct (kw_index_range lower k) as [H|H].
   - rewrite H. cbn. exact He.
-  - destruct (negb (kw_index lower k =? -1) && (kw_index lower k <? e)); lia.
+  - pose proof (zlen_nonneg k). destruct (negb (kw_index lower k =? -1) && (kw_index lower k <? e)) eqn:E; lia.
 Qed.
 
 Lemma clause_end_range lower stops : 0 <= clause_end lower stops <= zlen lower.
